@@ -98,6 +98,7 @@ class FakeFile(object):
         self.mode = mode
         self.path = path
         self.closed = False
+        self.pos = 0
 
     def __enter__(self):
         return self
@@ -134,7 +135,15 @@ class FakeFile(object):
             eng.local_write(self.inode, chunk)
         else:
             eng.step('write', writes=['inode:%d' % self.inode.id], clock=True)
-            self.inode.chunks.append(chunk)
+            # each open file description has its own offset (chunks have equal size)
+            ch = self.inode.chunks
+            while len(ch) < self.pos:
+                ch.append(('HOLE', None))
+            if len(ch) == self.pos:
+                ch.append(chunk)
+            else:
+                ch[self.pos] = chunk
+            self.pos += 1
             self.inode.mtime_event = eng.clock_event
 
 
@@ -274,8 +283,10 @@ class FakePickle(object):
         if isinstance(chunks, str):
             raise self.UnpicklingError('not a pickle')
         if len(chunks) == 2 and chunks[0][0] == 'P1' and chunks[1][0] == 'P2':
-            if chunks[0][1] is chunks[1][1]:
-                return chunks[0][1]
+            a, b = chunks[0][1], chunks[1][1]
+            if a is b or (isinstance(a, Parse) and isinstance(b, Parse) and a.version == b.version):
+                # halves of two pickles of the same parse are byte-identical
+                return a
             # halves of two different pickles of equal size spliced together: the byte
             # stream can be well formed; what comes out is not the parse of any version
             return Torn(chunks[0][1], chunks[1][1])
